@@ -46,7 +46,7 @@ def same(real, model, conv=canon):
     return True
 
 
-HAND_SPECS = [['rt1.stone', 'rt2.stone'], ['rt3.stone'], ['rt4.stone']]
+HAND_SPECS = [['rt1.stone', 'rt2.stone'], ['rt3.stone'], ['rt4.stone'], ['rt5.stone']]
 
 
 def hand_specs():
